@@ -107,7 +107,7 @@ def targets():
     }
 
 
-API_MODELS_QUICK = ["zen1", "n1", "tx2", "a64fx"]
+API_MODELS_QUICK = ["zen1", "zen4", "n1", "tx2", "a64fx"]   # zen4: register-typed load/store rows (dst: / src:)
 API_MODELS_THOROUGH = ["zen1", "zen4", "spr", "zen3", "n1", "tx2", "a64fx", "a72", "tsv110", "m1", "v2"]
 
 
